@@ -12,8 +12,10 @@ EXISTING = {"flat": ["a", "b"], "nested": ["a", "m.x", "m.y"], "attrpath": ["a",
             "quoted": ['"foo-bar"', '"a.b"', "a"], "deep": ["a", "m.n.x"], "attrpath-deep": ["m.n.x", "m.n.y", "a"], "inline": ["a"],
             "attrpath1": ["m.x", "a"], "inherit": ["b"], "empty": [],
             "twins": ["z", "a.enable", "b.enable", "enable", "m.x"], "twins-inline": ["a.enable", "b.enable", "c.enable"],
+            "nested-attrpath": ["a", "m.x.y", "m.k"], "same-name-family": ["users.users.alice.uid", "users.users.bob.uid", "k"],
+            "set-and-attrpath": ["a.b", "k"],
             "attrpath-deep4": ["s.n.v.m.a", "s.n.v.m.b", "s.n.w", "k"], "attrpath-interleaved": ["s.n.a", "s.h.a", "s.n.p", "k"]}
-VALUES = ["2", '"s"', "[ 1 2 ]", "{ k = 1; }"]
+VALUES = ["2", '"s"', "v", "[ 1 2 ]", "{ k = 1; }"]  # `v` is a name the let wrappers bind: the written value is then a reference
 # documents whose values are references: edits go through the names to their defining bindings (C11), so the laws also compare
 # orders of edits that land in different scopes.  Paths listed resolve to pairwise different bindings under Nix scoping.
 REF_DOCS = {
@@ -113,6 +115,10 @@ def run(tier, seed):
             wrapper, content = doc_id.split("/")
             path = s2 if isinstance(s2, str) else s2[0][1]
             sig = f"{sym}|{path}|content={content}|wrapper={wrapper}"
+            if kind == "idempotent" and not isinstance(s2, str) and any(o[2] == "v" for o in s2 if o[0] == "set"):
+                # one root cause, whatever the path: C11 makes the second `set` follow the reference the first one wrote
+                sig = (f"{sym}|the value written is a name bound in an enclosing scope: the second set follows the reference and rewrites "
+                       f"the definition (`v = v;`)|wrapper={wrapper}")
             if sig not in by_sig:
                 by_sig[sig] = dict(check="laws", signature=sig, what=f"C19 {sym}: {s2} on {doc_id}", has_input=True,
                                    inputs={"kind": kind, "doc": doc_id, "text": text, "s1": s1, "s2": s2},
